@@ -15,6 +15,140 @@ pub fn scratch_root() -> String {
     std::env::var("VERIF_SCRATCH").unwrap_or_else(|_| VERIF.to_string())
 }
 
+// ---- watchdog for calls into the subject that never return -----------------------------------
+// A subject that loops forever inside one call (serve(), a writer operation, should_gzip) would
+// hang the explorer: no verdict, and whoever runs the check has to kill it. Every such call is
+// therefore announced in a per-thread slot (a closure that can describe the case, and the time it
+// started); a watchdog thread reports a call that has not returned after HANG_S seconds as a
+// violation of the property being checked -- with a replay file -- and ends the process with 1.
+pub type CaseFn = Box<dyn Fn() -> Value + Send>;
+
+struct Slot {
+    since_ms: std::sync::atomic::AtomicU64, // 0 = idle
+    case: std::sync::Mutex<Option<CaseFn>>,
+}
+
+static SLOTS: std::sync::Mutex<Vec<std::sync::Arc<Slot>>> = std::sync::Mutex::new(Vec::new());
+static WATCH_PROP: std::sync::Mutex<Option<(String, String, String)>> = std::sync::Mutex::new(None); // (property, engine, tier)
+thread_local! {
+    static MY_SLOT: std::sync::Arc<Slot> = {
+        let s = std::sync::Arc::new(Slot { since_ms: std::sync::atomic::AtomicU64::new(0), case: std::sync::Mutex::new(None) });
+        SLOTS.lock().unwrap().push(s.clone());
+        s
+    };
+}
+
+pub fn hang_secs() -> u64 {
+    std::env::var("VERIF_HANG_S").ok().and_then(|s| s.parse().ok()).unwrap_or(60)
+}
+
+/// Runs `f` (a call into the subject) under the watchdog. `case` describes it for the replay file.
+pub fn watched<T>(case: CaseFn, f: impl FnOnce() -> T) -> T {
+    MY_SLOT.with(|slot| {
+        *slot.case.lock().unwrap() = Some(case);
+        slot.since_ms.store(now_ms().max(1), std::sync::atomic::Ordering::SeqCst);
+        let r = f();
+        slot.since_ms.store(0, std::sync::atomic::Ordering::SeqCst);
+        r
+    })
+}
+
+pub fn start_watchdog(prop: &str, engine: &str, tier: Tier) {
+    let mut g = WATCH_PROP.lock().unwrap();
+    let first = g.is_none();
+    *g = Some((prop.to_string(), engine.to_string(), tier.name().to_string()));
+    drop(g);
+    if !first {
+        return;
+    }
+    unsafe {
+        libc::signal(libc::SIGABRT, on_abort as *const () as usize);
+    }
+    std::thread::spawn(|| loop {
+        std::thread::sleep(std::time::Duration::from_millis(500));
+        let limit = hang_secs() * 1000;
+        let slots: Vec<std::sync::Arc<Slot>> = SLOTS.lock().unwrap().clone();
+        for s in slots {
+            let since = s.since_ms.load(std::sync::atomic::Ordering::SeqCst);
+            if since != 0 && now_ms().saturating_sub(since) > limit {
+                let case = s.case.lock().unwrap().as_ref().map(|c| c()).unwrap_or(json!(null));
+                let (prop, engine, tier) = WATCH_PROP.lock().unwrap().clone().unwrap();
+                let dir = PathBuf::from(format!("{}/replays/{}", scratch_root(), prop));
+                let _ = std::fs::create_dir_all(&dir);
+                let path = dir.join(format!("{tier}-hang.json"));
+                let msg = format!("a call into the subject has not returned after {} s (it loops or blocks forever)", limit / 1000);
+                let doc = json!({"property": prop, "engine": engine, "key": "subject-call-never-returns", "message": msg, "case": case});
+                let _ = std::fs::write(&path, serde_json::to_string_pretty(&doc).unwrap());
+                let evdir = std::env::var("VERIF_EVIDENCE_DIR").unwrap_or(format!("{}/evidence", scratch_root()));
+                let _ = std::fs::create_dir_all(&evdir);
+                let ev = json!({"property_id": prop, "tier": tier, "seed": 0, "level": "model_checking", "wall_s": now_ms() as f64 / 1000.0, "violations": 1,
+                    "coverage": {"evaluations": 0, "distinct_nontrivial": 0, "rule": "run ended by the watchdog: a call into the subject never returned", "samples": [case], "states": 0, "transitions": 0, "traces_validated_against_impl": 0, "exhaustive": false, "engine": engine}});
+                let _ = std::fs::write(format!("{evdir}/{prop}.json"), serde_json::to_string_pretty(&ev).unwrap() + "\n");
+                println!("# subject-call-never-returns: {msg}");
+                println!("VIOLATION property={prop} replay={}", path.display());
+                std::process::exit(1);
+            }
+        }
+    });
+}
+
+/// SIGABRT: Rust aborts the process when a panic starts while another one is unwinding (a
+/// destructor of the subject that panics again, e.g. flate2's nested encoders finishing into a
+/// chunk writer whose `write` panics) and when an allocation fails. The second is machinery (the
+/// handler returns, the process dies with 134 and ./check reruns without giant entities); the first
+/// is behaviour of the subject in the case this thread is executing, and no `catch_unwind` can
+/// contain it, so it is reported from here: replay file, minimal evidence, VIOLATION line, exit 1.
+/// The handler runs on the aborting thread, outside any allocator call, so allocating is safe in
+/// practice; an alarm ends the process should it ever get stuck.
+extern "C" fn on_abort(_sig: libc::c_int) {
+    if crate::alloc::ALLOC_FAILED.load(std::sync::atomic::Ordering::SeqCst) {
+        return;
+    }
+    static ENTERED: std::sync::atomic::AtomicBool = std::sync::atomic::AtomicBool::new(false);
+    if ENTERED.swap(true, std::sync::atomic::Ordering::SeqCst) {
+        // another worker is already reporting its case; wait for it to end the process
+        loop {
+            std::thread::sleep(std::time::Duration::from_secs(1));
+        }
+    }
+    unsafe {
+        libc::alarm(20);
+    }
+    let case = MY_SLOT
+        .try_with(|s| {
+            if s.since_ms.load(std::sync::atomic::Ordering::SeqCst) == 0 {
+                return json!(null);
+            }
+            match s.case.try_lock() {
+                Ok(g) => g.as_ref().map(|c| c()).unwrap_or(json!(null)),
+                Err(_) => json!(null),
+            }
+        })
+        .unwrap_or(json!(null));
+    let (prop, engine, tier) = match WATCH_PROP.try_lock().ok().and_then(|g| g.clone()) {
+        Some(x) => x,
+        None => return,
+    };
+    let dir = PathBuf::from(format!("{}/replays/{}", scratch_root(), prop));
+    let _ = std::fs::create_dir_all(&dir);
+    let path = dir.join(format!("{tier}-abort.json"));
+    let msg = "the subject aborted the process in this case: it panicked again while a panic was unwinding (a destructor that panics), which no caller can contain";
+    let doc = json!({"property": prop, "engine": engine, "key": "subject-aborts-the-process", "message": msg, "case": case});
+    let _ = std::fs::write(&path, serde_json::to_string_pretty(&doc).unwrap());
+    let evdir = std::env::var("VERIF_EVIDENCE_DIR").unwrap_or(format!("{}/evidence", scratch_root()));
+    let _ = std::fs::create_dir_all(&evdir);
+    let ev = json!({"property_id": prop, "tier": tier, "seed": 0, "level": "model_checking", "wall_s": now_ms() as f64 / 1000.0, "violations": 1,
+        "coverage": {"evaluations": 0, "distinct_nontrivial": 0, "rule": "run ended by the abort handler: the subject aborted the process", "samples": [case], "states": 0, "transitions": 0, "traces_validated_against_impl": 0, "exhaustive": false, "engine": engine}});
+    let _ = std::fs::write(format!("{evdir}/{prop}.json"), serde_json::to_string_pretty(&ev).unwrap() + "\n");
+    use std::io::Write;
+    let out = format!("# subject-aborts-the-process: {msg}\nVIOLATION property={prop} replay={}\n", path.display());
+    let _ = std::io::stdout().write_all(out.as_bytes());
+    let _ = std::io::stdout().flush();
+    unsafe {
+        libc::_exit(1);
+    }
+}
+
 #[derive(Clone, Copy, Debug, PartialEq, Eq)]
 pub enum Tier {
     Quick,
@@ -314,6 +448,7 @@ impl Run {
     pub fn new(prop: &str, engine: &'static str, tier: Tier) -> Run {
         let cap = std::env::var("VERIF_WALL_CAP_S").ok().and_then(|s| s.parse().ok()).unwrap_or(tier.pick(45u64, 1800));
         set_wall_cap(cap);
+        start_watchdog(prop, engine, tier);
         let seed = std::env::var("VERIF_SEED")
             .ok()
             .and_then(|s| s.parse().ok())
